@@ -207,12 +207,12 @@ def impl_lsm_seq(c):
             r = [[kid(k), v] for k, v in drive(lsm.scan(kname(o[1]), kname(o[2])))]
         results.append(r)
         snaps.append(lsm_snapshot(lsm))
-    return dict(results=results, snaps=snaps, fps=bloom_fps(c["nkeys"]))
+    return dict(results=results, snaps=snaps)
 
 
 def encode_lsm_seq(c, obs):
     steps = [(op_term(o), out_term(o, r), snap_term(s)) for o, r, s in zip(c["ops"], obs["results"], obs["snaps"])]
-    return term((cfg_term(c["cfg"]), [(ks, k) for ks, k in obs["fps"]], steps))
+    return term((cfg_term(c["cfg"]), [(ks, k) for ks, k in bloom_fps(c["nkeys"])], steps))
 
 
 def oracle_lsm_seq(c, obs):
@@ -308,7 +308,7 @@ def run_lsm_sim(c, make_wal=None):
     for i, (t, op) in enumerate(c["ops"]):
         sim.schedule(Event(time=Instant(t), event_type="op", target=w, context={"op": op, "oid": i}))
     _, verdict = run_bounded(sim)
-    return dict(log=log, windows=windows, verdict=verdict, fps=bloom_fps(c["nkeys"]))
+    return dict(log=log, windows=windows, verdict=verdict)
 
 
 def impl_lsm_conc(c):
@@ -321,13 +321,15 @@ def csnap_term(s):
 
 
 def encode_lsm_conc(c, obs):
-    steps = []
+    steps, prev = [], None
     for kind, oid, t, payload, snap in obs["log"]:
         op = c["ops"][oid][1]
         st = Ctor("SStart", oid, op_term(op)) if kind == "start" else Ctor("SResume", oid)
         ob = Ctor("OYield", payload[1]) if payload[0] == "yield" else Ctor("ODone", out_term(op, payload[1]))
-        steps.append((st, ob, csnap_term(snap)))
-    return term((cfg_term(c["cfg"]), [(ks, k) for ks, k in obs["fps"]], steps))
+        # None = "the engine state is the same as after the previous segment"
+        steps.append((st, ob, None if snap == prev else SomeV(csnap_term(snap))))
+        prev = snap
+    return term((cfg_term(c["cfg"]), [(ks, k) for ks, k in bloom_fps(c["nkeys"])], steps))
 
 
 def intervals(c, log):
@@ -429,15 +431,295 @@ def nontrivial_conc(c, obs):
     return False
 
 
+# --------------------------------------------------------------------------- family: KVStore, overlapping operations
+KV_IMPORTS = "From HS Require Import Base.Prelude C14.KvTxnModel."
+MS = 1000 * US
+
+
+def gen_kv_conc(rng):
+    nkeys = rng.choice([2, 3, 4])
+    t, ops = 0, []
+    for i in range(rng.randint(3, 25)):
+        t += rng.choice([0, 0, 500 * US, MS, 2 * MS, 4 * MS, 5 * MS, 6 * MS])
+        k = rng.random()
+        key = rng.randrange(nkeys)
+        ops.append([t, ["put", key, 100 + i] if k < 0.4 else ["del", key] if k < 0.6 else ["get", key]])
+    return dict(nkeys=nkeys, ops=ops)
+
+
+def impl_kv_conc(c):
+    from happysimulator.components.datastore.kv_store import KVStore
+    from happysimulator.core.entity import Entity
+    from happysimulator.core.event import Event
+    from happysimulator.core.simulation import Simulation
+    from happysimulator.core.temporal import Instant
+    from hsverif.util import run_bounded
+    kv = KVStore("kv")
+    log = []
+
+    def snap():
+        return sorted([kid(k), v] for k, v in kv._data.items())
+
+    class Worker(Entity):
+        def handle_event(self, event):
+            op, oid = event.context["op"], event.context["oid"]
+            g = kv.put(kname(op[1]), op[2]) if op[0] == "put" else kv.delete(kname(op[1])) if op[0] == "del" else kv.get(kname(op[1]))
+            first = True
+            while True:
+                kind = "start" if first else "resume"
+                first = False
+                t = self.now.nanoseconds
+                try:
+                    d = next(g)
+                except StopIteration as e:
+                    log.append([kind, oid, t, ["done", e.value], snap()])
+                    return
+                log.append([kind, oid, t, ["yield", ns_of(d)], snap()])
+                yield d
+    w = Worker("w")
+    sim = Simulation(end_time=Instant.from_seconds(1000), entities=[kv, w])
+    for i, (t, op) in enumerate(c["ops"]):
+        sim.schedule(Event(time=Instant(t), event_type="op", target=w, context={"op": op, "oid": i}))
+    _, verdict = run_bounded(sim)
+    order_ok = list(kv._data.keys()) == kv._insertion_order
+    return dict(log=log, verdict=verdict, windows=[], order_ok=order_ok)
+
+
+def kop_term(o):
+    return Ctor("KPut", o[1], o[2]) if o[0] == "put" else Ctor("KDel", o[1]) if o[0] == "del" else Ctor("KGet", o[1])
+
+
+def encode_kv_conc(c, obs):
+    steps = []
+    for kind, oid, t, payload, snap in obs["log"]:
+        op = c["ops"][oid][1]
+        st = Ctor("KStart", oid, kop_term(op)) if kind == "start" else Ctor("KResume", oid)
+        if payload[0] == "yield":
+            ob = Ctor("KYield", payload[1])
+        elif op[0] == "put":
+            ob = Ctor("KDone", Ctor("KONone"))
+        elif op[0] == "del":
+            ob = Ctor("KDone", Ctor("KODel", bool(payload[1])))
+        else:
+            ob = Ctor("KDone", Ctor("KOGet", None if payload[1] is None else SomeV(payload[1])))
+        steps.append((st, ob, [(k, v) for k, v in snap]))
+    return term(steps)
+
+
+def oracle_kv_conc(c, obs):
+    fails = conc_oracle(c, obs, "kv")
+    if not obs["order_ok"]:
+        fails.append(dict(clause="kv: insertion-order list agrees with the dict"))
+    return fails[:3]
+
+
+# --------------------------------------------------------------------------- family: TransactionManager over a KVStore
+ISO = ["RC", "SI", "SER"]
+
+
+def gen_txn(rng):
+    nkeys = rng.choice([2, 3])
+    workers = []
+    mode = rng.random()
+    for w in range(rng.randint(2, 4)):
+        script, t = [], rng.choice([0, 0, 500 * US, MS, 2 * MS])
+        for _ in range(rng.randint(1, 2)):
+            iso = "SER" if mode < 0.4 else "SI" if mode < 0.6 else rng.choice(ISO)
+            ops = []
+            for _ in range(rng.randint(1, 5)):
+                key = rng.randrange(nkeys)
+                ops.append(["read", key] if rng.random() < 0.55 else ["write", key, rng.randint(1, 99)])
+            end = ["abort"] if rng.random() < 0.1 else ["commit"]
+            extra = [rng.choice([["read", 0], ["write", 0, 5], ["commit"], ["abort"]])] if rng.random() < 0.1 else []
+            script.append(dict(iso=iso, ops=ops + [end] + extra,
+                               gaps=[rng.choice([0, 0, 300 * US, MS, 1500 * US]) for _ in range(len(ops) + 1 + len(extra))]))
+        workers.append(dict(t0=t, txns=script))
+    vals = 1
+    for w in workers:
+        for tx in w["txns"]:
+            for o in tx["ops"]:
+                if o[0] == "write":
+                    o[2] = 100 + vals
+                    vals += 1
+    return dict(nkeys=nkeys, workers=workers)
+
+
+def impl_txn(c):
+    from happysimulator.components.datastore.kv_store import KVStore
+    from happysimulator.components.storage.transaction_manager import IsolationLevel, TransactionManager
+    from happysimulator.core.entity import Entity
+    from happysimulator.core.event import Event
+    from happysimulator.core.simulation import Simulation
+    from happysimulator.core.temporal import Instant
+    from hsverif.util import run_bounded
+    kv = KVStore("kv")
+    tm = TransactionManager("tm", store=kv)
+    lvl = {"RC": IsolationLevel.READ_COMMITTED, "SI": IsolationLevel.SNAPSHOT_ISOLATION, "SER": IsolationLevel.SERIALIZABLE}
+    log = []
+    counter = [0]
+
+    def snap():
+        return dict(store=sorted([kid(k), v] for k, v in kv._data.items()), version=tm._version, nlog=len(tm._commit_log))
+
+    class Worker(Entity):
+        def handle_event(self, event):
+            wk = event.context["w"]
+
+            def segs(desc, g):
+                oid = counter[0]
+                counter[0] += 1
+                first = True
+                while True:
+                    kind = "start" if first else "resume"
+                    first = False
+                    t = self.now.nanoseconds
+                    try:
+                        d = next(g)
+                    except StopIteration as e:
+                        log.append([kind, oid, t, desc, ["done", getattr(e.value, "tx_id", e.value)], snap()])
+                        return e.value
+                    except RuntimeError:
+                        log.append([kind, oid, t, desc, ["err"], snap()])
+                        return None
+                    log.append([kind, oid, t, desc, ["yield", ns_of(d)], snap()])
+                    yield d
+
+            for tx in wk["txns"]:
+                txo = yield from segs(["begin", tx["iso"]], tm.begin(lvl[tx["iso"]]))
+                for o, gap in zip(tx["ops"], tx["gaps"]):
+                    if gap:
+                        yield gap / 1e9
+                    if o[0] == "read":
+                        yield from segs(["read", txo.tx_id, o[1]], txo.read(kname(o[1])))
+                    elif o[0] == "write":
+                        yield from segs(["write", txo.tx_id, o[1], o[2]], txo.write(kname(o[1]), o[2]))
+                    elif o[0] == "commit":
+                        yield from segs(["commit", txo.tx_id], txo.commit())
+                    else:
+                        oid = counter[0]
+                        counter[0] += 1
+                        txo.abort()
+                        log.append(["start", oid, self.now.nanoseconds, ["abort", txo.tx_id], ["done", None], snap()])
+
+    ws = [Worker(f"w{i}") for i in range(len(c["workers"]))]
+    sim = Simulation(end_time=Instant.from_seconds(1000), entities=[kv, tm] + ws)
+    for w, wk in zip(ws, c["workers"]):
+        sim.schedule(Event(time=Instant(wk["t0"]), event_type="go", target=w, context={"w": wk}))
+    _, verdict = run_bounded(sim)
+    return dict(log=log, verdict=verdict, stats=[tm.stats.transactions_committed, tm.stats.transactions_aborted, tm.stats.conflicts_detected])
+
+
+def top_term(d):
+    if d[0] == "begin":
+        return Ctor("TBegin", Ctor(d[1]))
+    if d[0] == "read":
+        return Ctor("TRead", d[1], d[2])
+    if d[0] == "write":
+        return Ctor("TWrite", d[1], d[2], d[3])
+    if d[0] == "commit":
+        return Ctor("TCommit", d[1])
+    return Ctor("TAbort", d[1])
+
+
+def encode_txn(c, obs):
+    steps = []
+    begun = {}
+    for kind, oid, t, desc, payload, snap in obs["log"]:
+        st = Ctor("TStart", oid, top_term(desc)) if kind == "start" else Ctor("TResume", oid)
+        if payload[0] == "yield":
+            ob = Ctor("TObsYield", payload[1])
+        elif payload[0] == "err":
+            ob = Ctor("TObsDone", Ctor("TOErr"))
+        elif desc[0] == "begin":
+            ob = Ctor("TObsDone", Ctor("TOTx", payload[1]))
+        elif desc[0] == "read":
+            ob = Ctor("TObsDone", Ctor("TOVal", None if payload[1] is None else SomeV(payload[1])))
+        elif desc[0] == "commit":
+            ob = Ctor("TObsDone", Ctor("TOBool", bool(payload[1])))
+        else:
+            ob = Ctor("TObsDone", Ctor("TONone"))
+        steps.append((st, ob, ([(k, v) for k, v in snap["store"]], snap["version"], snap["nlog"])))
+    return term(steps)
+
+
+def txn_views(obs):
+    """Per transaction: isolation, store reads [(key, value, log position)], writes, commit position, outcome."""
+    txs, cur = {}, {}
+    log = obs["log"]
+    for pos, (kind, oid, t, desc, payload, snap) in enumerate(log):
+        if desc[0] == "begin" and payload[0] == "done":
+            txs[payload[1]] = dict(iso=desc[1], reads=[], writes={}, commit=None, outcome="active")
+        elif desc[0] == "write" and kind == "start" and payload[0] != "err":
+            txs[desc[1]]["writes"][desc[2]] = desc[3]
+        elif desc[0] == "read" and payload[0] == "done" and kind == "resume":
+            txs[desc[1]]["reads"].append([desc[2], payload[1], pos])
+        elif desc[0] == "commit" and kind == "start" and payload[0] != "err":
+            if payload[0] == "yield":
+                txs[desc[1]].update(commit=pos, outcome="committed")
+            else:
+                txs[desc[1]].update(outcome="aborted")
+        elif desc[0] == "abort" and txs[desc[1]]["outcome"] == "active":
+            txs[desc[1]]["outcome"] = "aborted"
+    return txs
+
+
+def oracle_txn(c, obs):
+    if obs["verdict"] != "ok":
+        return [dict(clause="txn: run terminates", verdict=obs["verdict"])]
+    log = obs["log"]
+    fails = []
+    txs = txn_views(obs)
+    # serial replay in commit order
+    order = sorted((v["commit"], tid) for tid, v in txs.items() if v["outcome"] == "committed")
+    store, versions = {}, [dict()]
+    for pos, tid in order:
+        tx = txs[tid]
+        before = {k: v for k, v in log[pos - 1][5]["store"]} if pos > 0 else {}
+        if before != store:
+            fails.append(dict(clause="txn: the store changes only by committed transactions, atomically at commit", tx=tid))
+            break
+        if tx["iso"] == "SER":
+            for k, v, rpos in tx["reads"]:
+                if store.get(k) != v:
+                    fails.append(dict(clause="txn: SERIALIZABLE transactions are equivalent to the serial order of their commits",
+                                      tx=tid, key=k, read=v, serial_value=store.get(k)))
+                    break
+        store.update(tx["writes"])
+        versions.append(dict(store))
+    final = {k: v for k, v in log[-1][5]["store"]} if log else {}
+    if not fails and final != store:
+        fails.append(dict(clause="txn: final store equals the serial replay of the committed transactions", final=final, serial=store))
+    for tid, tx in txs.items():
+        if tx["outcome"] == "committed" and tx["iso"] == "SI" and tx["reads"]:
+            if not any(all(ver.get(k) == v for k, v, _ in tx["reads"]) for ver in versions):
+                fails.append(dict(clause="txn: snapshot-isolation transactions read from one consistent snapshot", tx=tid, reads=tx["reads"],
+                                  mechanism="si-reads-live",
+                                  what="SNAPSHOT_ISOLATION reads go to the live store: two reads straddling a foreign commit see two different snapshots and the transaction still commits"))
+                break
+    return fails[:3]
+
+
+def attribute_txn(c, obs, f):
+    return "C14-si-reads-live" if f.get("mechanism") == "si-reads-live" else None
+
+
 FAMILIES = [
     Family("lsm_seq", IMPORTS, "ok_lsm_seq", "cfg * list (list Z * Z) * list (op * out * snap)",
            gen_lsm_seq, impl_lsm_seq, encode_lsm_seq, oracle_lsm_seq,
            nontrivial=lambda c, o: o["snaps"][-1]["ncomp"] >= 2 and any(x[0] == "del" for x in c["ops"]),
            describe=lambda c: f"{c['cfg']['strategy'][0]},nlev={c['cfg']['nlev']},thr={c['cfg']['thr']}"),
-    Family("lsm_conc", IMPORTS, "ok_lsm_conc", "cfg * list (list Z * Z) * list (sched_step * obs * csnap)",
+    Family("lsm_conc", IMPORTS, "ok_lsm_conc", "cfg * list (list Z * Z) * list (sched_step * obs * option csnap)",
            gen_lsm_conc, impl_lsm_conc, encode_lsm_conc, oracle_lsm_conc, nontrivial=nontrivial_conc,
            attribute=attribute_lsm_conc, parallel=True,
            describe=lambda c: f"{c['cfg']['strategy'][0]},nlev={c['cfg']['nlev']}"),
+    Family("kv_conc", KV_IMPORTS, "ok_kv_conc", "list (kstep * kobs * dict)",
+           gen_kv_conc, impl_kv_conc, encode_kv_conc, oracle_kv_conc,
+           nontrivial=lambda c, o: any(a[0] != b[0] for a, b in zip(o["log"], o["log"][1:]) if a[1] != b[1]),
+           parallel=True),
+    Family("txn", KV_IMPORTS, "ok_txn", "list (tstep * tobs * tsnap)",
+           gen_txn, impl_txn, encode_txn, oracle_txn,
+           nontrivial=lambda c, o: o["stats"][0] >= 2, attribute=attribute_txn, parallel=True,
+           describe=lambda c: ",".join(sorted({t["iso"] for w in c["workers"] for t in w["txns"]}))),
 ]
 
 TRUSTED = [
@@ -449,7 +731,7 @@ TRUSTED = [
     "the level list has fixed length max_levels",
 ]
 
-PROOF_FILES = ["C14/Model.v", "C14/LsmProofs.v", "C14/ConcProofs.v", "C14/Props.v"]
+PROOF_FILES = ["C14/Model.v", "C14/LsmProofs.v", "C14/ConcProofs.v", "C14/KvTxnModel.v", "C14/KvTxnProofs.v", "C14/Props.v"]
 
 
 class Sharded:
@@ -471,7 +753,9 @@ def run(ctx):
     ctx.prove(PROOF_FILES, allowed_axioms=(), trusted_base=TRUSTED)
     sctx = Sharded(ctx, 40)
     stats = [run_family(sctx, FAMILIES[0], ctx.n(300, 6000)),
-             run_family(Sharded(ctx, 25), FAMILIES[1], ctx.n(300, 6000))]
+             run_family(Sharded(ctx, 25), FAMILIES[1], ctx.n(300, 6000)),
+             run_family(Sharded(ctx, 25), FAMILIES[2], ctx.n(150, 3000)),
+             run_family(Sharded(ctx, 25), FAMILIES[3], ctx.n(200, 4000))]
     merge_stats(ctx, stats, "random workloads over 3-6 keys, memtable size 1-4, 1-4 levels, three strategies; "
                             "non-trivial = at least two compactions and a delete; distinct by JSON of the input")
     ctx.finish_obligations()
